@@ -50,6 +50,100 @@ func runC09(c *core.Ctx) {
 		c09Ops(c, rng, dir, i)
 		done()
 	}
+	for i := 0; i < c.Pick(12, 60); i++ {
+		rng, ok := c.CaseRng(200000+i, "the working directory watched as '.' and deleted")
+		if !ok {
+			continue
+		}
+		dir, done := caseDir(c, 200000+i)
+		c09Cwd(c, rng, dir, i)
+		done()
+	}
+}
+
+// c09Cwd: a directory watched under the relative spelling "." (its own lexical parent), optionally with an
+// entry watched under its bare name ("g", lexical parent "."), is emptied and removed after the process has
+// moved elsewhere: the kernel log decides what must be reported - one Remove for ".", the watch gone from
+// WatchList, Remove(".") => ErrNonExistentWatch - and a later directory of the same name stays silent.
+func c09Cwd(c *core.Ctx, rng *rand.Rand, dir string, idx int) {
+	s, err := twin.NewSession(dir, []int{-1, 0, 16}[rng.Intn(3)])
+	if err != nil {
+		c.Broken(err.Error())
+		return
+	}
+	defer s.Close()
+	base := s.Base
+	defer os.Chdir("/")
+	os.Chdir(base)
+	os.Mkdir("cw", 0o755)
+	os.WriteFile("cw/g", nil, 0o644)
+	withFile := rng.Intn(2) == 0
+	dotSpell := []string{".", "./", "./.", "x/.."}[rng.Intn(4)]
+	params := fmt.Sprintf("cwd-watch spelling=%q file-watched=%v", dotSpell, withFile)
+	var rep twin.Report
+	bad := false
+	fail := func(sig, text string) {
+		bad = true
+		c.Violate(sig, fmt.Sprintf("[%s] %s; history %v", params, text, s.Tail(16)), map[string]interface{}{"params": params, "history": s.Tail(40)})
+	}
+	judge := func() bool {
+		for _, d := range rep.Diffs {
+			fail("stream-after-watch-end", "stream differs from the kernel log: "+d.Diff.String())
+		}
+		for _, l := range rep.ListDiffs {
+			fail("watch-not-ended", l)
+		}
+		if rep.Hang != "" {
+			c.Inconclusive("barrier watchdog: " + hangClass(rep.Hang))
+			bad = true
+		}
+		rep.Diffs, rep.ListDiffs = nil, nil
+		return !bad
+	}
+	os.Chdir(filepath.Join(base, "cw"))
+	if dotSpell == "x/.." {
+		os.Mkdir("x", 0o755)
+	}
+	e1 := s.AddStrict(&rep, dotSpell)
+	var e2 error
+	if withFile {
+		e2 = s.AddStrict(&rep, "g")
+	}
+	os.Chdir(base)
+	if e1 != nil || e2 != nil {
+		c.Broken(fmt.Sprintf("setup Add failed: %v %v", e1, e2))
+		return
+	}
+	if dotSpell == "x/.." {
+		s.Rmdir("cw/x")
+	}
+	s.Creat("cw/e")
+	s.Chmod("cw/g", 0o600)
+	if rng.Intn(2) == 0 {
+		s.Pause(true)
+	}
+	s.Unlink("cw/e")
+	s.Unlink("cw/g")
+	s.Rmdir("cw")
+	s.Sync(&rep, true)
+	c.Count("histories", 1)
+	c.Count("cwd_watch_histories", 1)
+	c.Eval(1)
+	if !judge() {
+		return
+	}
+	c.Count("watch_end_probes", 1)
+	os.Chdir(base)
+	if err := s.W.Remove("."); !errors.Is(err, fsnotify.ErrNonExistentWatch) {
+		fail("remove-after-end", fmt.Sprintf("Remove(\".\") after the watched directory was deleted = %v, want ErrNonExistentWatch", err))
+		return
+	}
+	s.Mkdir("cw")
+	s.Creat("cw/g")
+	s.Sync(&rep, true)
+	if judge() && rep.Received > 0 {
+		c.Distinct(params)
+	}
 }
 
 // c09Ops: (a) the watch is added with an operation filter (possibly WITHOUT Remove, so the kernel
